@@ -223,6 +223,45 @@ CHECKS = {
              "with thread settings, root order (without --isolate) or file creation order.",
         note=COMMON_NOTE,
         design="4/C14"),
+    "C04": dict(
+        category="exploration",
+        technique="runtime monitoring: hook-paused `group` runs with edits at logical instants, then real dedupe runs; before/after inventory oracle",
+        text="Histories (tree; `group`; ordinary file edits; dedupe) in which the edit instant is a hook H3 pause point rather than "
+             "a sleep: after the scan, after file X's prefix/suffix/content hash while others are pending, after all hashing "
+             "but before the report is written, or after `group` exited. Ten edit kinds (same/different-length rewrite, append, "
+             "truncate, delete, delete+recreate, replace by directory / dangling symlink / symlink to a fresh file, touch) on "
+             "1..all members of a group, then each of the five operations on the text or JSON report. The inventory taken just "
+             "before the dedupe command is compared with the one after: no content held by a regular file may disappear and "
+             "after link / link --soft / dedupe every regular file reads back the same bytes.",
+        note=COMMON_NOTE + "Outside the guarantee and never generated: mtime-preserving replacement, and edits closer than one kernel "
+             "timer tick (edits are kept >= 12 ms away) to the instant fclones reads the clock, because file mtimes come from the "
+             "coarse kernel clock and a sub-tick race cannot be driven deterministically.",
+        design="4/C04"),
+    "C09": dict(
+        category="exploration",
+        technique="runtime monitoring: real `group --rf-over 0` listings vs a three-valued reference walk",
+        text="Generated trees (nesting 0..6, hidden entries, .gitignore/.fdignore, relative/absolute/dangling/cyclic/cross-device "
+             "symlinks, directory names with regex metacharacters, spaces and non-ASCII text) are scanned with random "
+             "combinations of --depth, --hidden, --no-ignore, -L, -S, --min/--max, --name/--path/--exclude (globs or a regex "
+             "subset, absolute or cwd-relative, --ignore-case), --one-fs, overlapping/repeated roots and unusual working "
+             "directories. The listed paths must contain every 'must' path of an independent reference walk and nothing outside "
+             "must + don't-care, with no duplicates.",
+        note=COMMON_NOTE + "Don't-care only where the documentation is silent: an explicitly given hidden root, the contents of a "
+             "directory (or the target of a link) whose own path is excluded, and files whose listing under -L depends on which "
+             "of several overlapping roots reaches a shared directory first. Known finding D6 is listed in known_findings.json.",
+        design="4/C09"),
+    "C12": dict(
+        category="exploration",
+        technique="runtime monitoring: cached vs uncached differential runs over edit histories, cache hits counted through the event hook, kills at hook pause points",
+        text="Histories of 1..6 steps (edit the tree; `group --cache` with some configuration) over files that share long prefixes "
+             "and suffixes; after each step the same configuration runs uncached with a fresh $HOME and the report bodies must be "
+             "identical. Edits: create, modify same length, append, truncate, rename, delete-and-recreate in the same directory "
+             "(inode reuse measured), hard-link, copy; the configuration (hash function, transform, prefix/suffix sizes, disk kind) "
+             "may switch between steps; a quarter of the steps are preceded by a cached run that is SIGKILLed at a hook pause "
+             "point. Only steps with at least one cache hit (event hook) count as non-trivial.",
+        note=COMMON_NOTE + "The proviso of the property (every content change also changes mtime in ms or length) is enforced by the "
+             "harness.",
+        design="4/C12"),
 }
 
 NOT_YET = {}
